@@ -1,13 +1,16 @@
 import BoltonsVerif.Common
 import BoltonsVerif.C17.Model
 import BoltonsVerif.C17.Heap
+import BoltonsVerif.C17.Args
 /-
 C17 line protocol.  One line = one whole history:   <type> <tok> <tok> ...
 type = oto | m2m | fd ; a token is `/`-separated, objects are natural-number ids,
 `<s>` is the side (`f` forward object, `i` its `.inv`), pairs are `k:v,k:v` (`-` = empty).
 
-oto:  N/<pairs>  NR/<r>/<s>/<kw>  Q/<pairs>  QR/<r>/<s>/<kw>  C/<r>/<s>
-      S/<r>/<s>/<k>/<v>  D/<r>/<s>/<k>  U/<r>/<s>/<pairs>  UR/<r>/<s>/<r2>/<s2>/<kw>
+oto:  MI/<pairs> (caller creates and keeps a one-shot iterator)  NX/<i> (caller takes one item off iterator i)
+      N/<arg>/<kw>  Q/<arg>/<kw>  C/<r>/<s>  S/<r>/<s>/<k>/<v>  D/<r>/<s>/<k>  U/<r>/<s>/<arg>/<kw>
+      arg = n | d<pairs> (dict, raw) | p<pairs> (list) | j<pairs> (iterator made for the call) | i<idx> (held iterator)
+            | r<r>.<s> (another instance); kw = raw keyword pairs
       F/<r>/<s>/<k>/<d>  P/<r>/<s>/<k>/<d|->  I/<r>/<s>[/<k>:<v> = the pair the implementation popped]  L/<r>/<s>
 m2m:  [X/<probe ids> first]  N/<pairs>  NR/<r>/<s>  A/<r>/<s>/<k>/<v>  R/<r>/<s>/<k>/<v>  S/<r>/<s>/<k>/<vals>
       D/<r>/<s>/<k>  U/<r>/<s>/<pairs>  UR/<r>/<s>/<r2>/<s2>  P/<r>/<s>/<k>/<nk>
@@ -54,17 +57,33 @@ def showRet : Ret Nat → String
 def dumpOto (s : OTO Nat) : String :=
   s!"F{showPairs (s.fwd.mergeSort lePair)}/I{showPairs (s.inv.mergeSort lePair)}"
 
-def otoSrc? (r s kw : String) : Option (Src Nat) :=
-  match r.toNat?, side? s, parsePairs? kw with
-  | some r, some s, some kw => some (.reg r s kw)
-  | _, _, _ => none
+/-- a positional argument as the caller built it: `n` none, `d<pairs>` dict / OrderedDict, `p<pairs>` list of pairs,
+    `j<pairs>` an iterator made for this call, `i<idx>` the held one-shot iterator `idx`, `r<r>.<s>` another instance -/
+def arg? (t : String) : Option (Arg Nat) :=
+  let rest := (t.drop 1).toString
+  match t.front with
+  | 'n' => if rest = "" then some .none else none
+  | 'd' => (parsePairs? rest).map .dict
+  | 'p' => (parsePairs? rest).map .pairs
+  | 'j' => (parsePairs? rest).map .freshIter
+  | 'i' => rest.toNat?.map .iter
+  | 'r' => match splitOnChar rest '.' with
+    | [r, sd] => match r.toNat?, side? sd with
+      | some r, some sd => some (.reg r sd)
+      | _, _ => none
+    | _ => none
+  | _ => none
 
-def otoTok? (tok : String) : Option (OtoCmd Nat) :=
+def otoTok? (tok : String) : Option (OtoCmdA Nat) :=
   match splitOnChar tok '/' with
-  | ["N", ps] => (parsePairs? ps).map fun ps => .new (.pairs ps)
-  | ["NR", r, s, kw] => (otoSrc? r s kw).map .new
-  | ["Q", ps] => (parsePairs? ps).map fun ps => .unique (.pairs ps)
-  | ["QR", r, s, kw] => (otoSrc? r s kw).map .unique
+  | ["MI", ps] => (parsePairs? ps).map .mkIter
+  | ["NX", i] => i.toNat?.map .next
+  | ["N", a, kw] => match arg? a, parsePairs? kw with
+    | some a, some kw => some (.new a kw)
+    | _, _ => none
+  | ["Q", a, kw] => match arg? a, parsePairs? kw with
+    | some a, some kw => some (.unique a kw)
+    | _, _ => none
   | ["C", r, s] => match r.toNat?, side? s with
     | some r, some s => some (.copy r s)
     | _, _ => none
@@ -74,12 +93,9 @@ def otoTok? (tok : String) : Option (OtoCmd Nat) :=
   | ["D", r, s, k] => match r.toNat?, side? s, k.toNat? with
     | some r, some s, some k => some (.op r s (.delitem k))
     | _, _, _ => none
-  | ["U", r, s, ps] => match r.toNat?, side? s, parsePairs? ps with
-    | some r, some s, some ps => some (.op r s (.update ps))
-    | _, _, _ => none
-  | ["UR", r, s, r2, s2, kw] => match r.toNat?, side? s, otoSrc? r2 s2 kw with
-    | some r, some s, some src => some (.updateFrom r s src)
-    | _, _, _ => none
+  | ["U", r, s, a, kw] => match r.toNat?, side? s, arg? a, parsePairs? kw with
+    | some r, some s, some a, some kw => some (.update r s a kw)
+    | _, _, _, _ => none
   | ["F", r, s, k, d] => match r.toNat?, side? s, k.toNat?, d.toNat? with
     | some r, some s, some k, some d => some (.op r s (.setdefault k d))
     | _, _, _, _ => none
@@ -98,16 +114,18 @@ def otoTok? (tok : String) : Option (OtoCmd Nat) :=
     | _, _ => none
   | _ => none
 
+/-- the caller-level machine of `Args.lean`: dict / keyword de-duplication and the one pass over a one-shot
+    iterator happen HERE, not in the harness -/
 def runOto (toks : List String) : Option (List String) :=
-  let rec go (regs : List (OTO Nat)) (toks : List String) (acc : List String) : Option (List String) :=
+  let rec go (st : OtoSt Nat) (toks : List String) (acc : List String) : Option (List String) :=
     match toks with
     | [] => some acc.reverse
     | t :: ts => match otoTok? t with
       | none => none
-      | some c => match otoCmd regs c with
+      | some c => match otoCmdA st c with
         | none => none
-        | some (regs', ret) => go regs' ts (("|".intercalate (showRet ret :: regs'.map dumpOto)) :: acc)
-  go [] toks []
+        | some (st', ret) => go st' ts (("|".intercalate (showRet ret :: st'.regs.map dumpOto)) :: acc)
+  go OtoSt.empty toks []
 
 /-! m2m -/
 
